@@ -1357,7 +1357,13 @@ pub fn relpath<P1: AsRef<Path>, P2: AsRef<Path>>(t: P1, base: P2) -> io::Result<
         "relpath called with relative base {:?}",
         base
     );
-    let base = realdirpath(&base)?;
+    // `base` is always used as a directory, so (unlike `t`) its final component
+    // must be resolved too: if it is a symlink to a directory elsewhere, ".."
+    // below it leads to the link target's parent, not the link's parent.
+    let base = match base.canonicalize() {
+        Ok(p) => Cow::Owned(p),
+        Err(_) => realdirpath(&base)?,
+    };
     let base = helpers::normpath(&base);
 
     let mut n = 0usize;
